@@ -79,7 +79,11 @@ InDomain(L, req) ==
   /\ \A i, j \in Idx(L) : (L[i].m = L[j].m /\ ResKey(L[i]) = ResKey(L[j])) => LabelOf(L[i]) = LabelOf(L[j])
   /\ \A i, j \in Idx(L) : (i < j /\ L[i].m = L[j].m /\ AtomKey(L[i]) # AtomKey(L[j]))
                            => ~OnSphere(L[i], L[j], ClashMilli)
-  /\ \A i \in Idx(L) : Cardinality(Partners(L, i)) <= 1
+  \* an atom clashes with at most one other atom - or it is a link of a clash CHAIN (at most two partners, all
+  \* occupancies known and different), on which only "the lower atom of a clashing pair is never kept" is demanded
+  /\ \A i \in Idx(L) : \/ Cardinality(Partners(L, i)) <= 1
+                        \/ /\ Cardinality(Partners(L, i)) = 2
+                           /\ \A j \in Partners(L, i) : L[i].occ >= 0 /\ L[j].occ >= 0 /\ L[i].occ # L[j].occ
   /\ \A i \in Idx(L) : Cardinality(Copies(L, i)) > 1 => Partners(L, i) = {}
 
 \* ------------------------------------------------------------------ 2. clauses (Required)
@@ -118,7 +122,9 @@ ClashKeepsBest(L, m, res) ==
   LET P == KeysOf(res)
       has(i) == AtomKey(L[i]) \in P IN
   \A i \in InModel(L, m) : \A j \in Partners(L, i) :
-     IF L[i].occ < 0 \/ L[j].occ < 0 THEN has(i) \/ has(j)
+     IF Cardinality(Partners(L, i)) > 1 \/ Cardinality(Partners(L, j)) > 1
+     THEN (L[i].occ < L[j].occ => ~has(i)) /\ (L[j].occ < L[i].occ => ~has(j))      \* a link of a clash chain
+     ELSE IF L[i].occ < 0 \/ L[j].occ < 0 THEN has(i) \/ has(j)
      ELSE IF L[i].occ > L[j].occ THEN has(i) /\ ~has(j)
      ELSE IF L[i].occ < L[j].occ THEN has(j) /\ ~has(i)
      ELSE (has(i) /\ ~has(j)) \/ (has(j) /\ ~has(i))
